@@ -85,6 +85,11 @@ def _raw(spec):
             if spec.get('order') == 'sorted':
                 # concatenated segments instead of shuffled frames
                 a[idx] = a[idx][np.argsort(labels, kind='stable')]
+            if spec.get('outliers'):
+                # a few frames far away from every cluster (clicks, glitches)
+                far = float(spec.get('outlier_scale', 100.0))
+                for _ in range(int(spec['outliers'])):
+                    a[idx][int(rng.randint(N))] = rng.standard_normal(D) * far
         a = a * float(spec.get('scale', 1.0)) + float(spec.get('offset', 0.0))
     elif kind == 'affiliation':
         # strictly positive, sums to one over axis -2
@@ -179,6 +184,27 @@ def _raw(spec):
             e = _cnormal(rng, (N, D)) if cplx else rng.standard_normal((N, D))
             ph = np.exp(1j * rng.uniform(0, 6.28, size=(N, 1))) if cplx else 1.0
             a[idx] = (v + noise * e) * ph
+    elif kind == 'cdirectional':
+        # (..., N, D) observations of K directional sources: mode h_k plus
+        # complex noise of variance 1/kappa_k (Watson-like concentration
+        # kappa_k, log-uniform in [kappa_low, kappa_high]), random phase and
+        # gain per frame; every class populated
+        *lead, N, D = shape
+        K = int(spec['K'])
+        lo, hi = float(spec.get('kappa_low', 5.0)), float(spec.get('kappa_high', 690.0))
+        a = np.empty(shape, dtype=complex)
+        for idx in np.ndindex(*lead):
+            labels = np.concatenate(
+                [np.arange(K), rng.randint(0, K, size=max(N - K, 0))])[:N]
+            rng.shuffle(labels)
+            for k in range(K):
+                h = _cnormal(rng, (D,))
+                h = h / np.linalg.norm(h)
+                kappa = float(np.exp(rng.uniform(np.log(lo), np.log(hi))))
+                n = int(np.sum(labels == k))
+                a[idx][labels == k] = h + np.sqrt(1.0 / kappa) * _cnormal(rng, (n, D))
+            a[idx] *= np.exp(1j * rng.uniform(0, 2 * np.pi, size=(N, 1)))
+            a[idx] *= 10.0 ** rng.uniform(-2, 2, size=(N, 1))
     elif kind == 'basis_rows':
         # (N, D) complex rows cycling through a random unitary basis
         N, D = shape
